@@ -435,28 +435,62 @@ class Model:
 
     def _classify_search(self, fnode, allow_inline=False):
         """tag-order: `for t in tagnames: c = self.find(qn(t)); if c is not None: return c`
-        doc-order: `for c in self[.iterchildren()]: if c.tag in <set of qn(tagnames)>: return c`."""
+        doc-order: `for c in self[.iterchildren()]: if c.tag in <set of qn(tagnames)>: ...` either as a
+        loop or as `next((c for c in self if c.tag in names), None)`.  The membership set must be built
+        from the function's *tagnames (through qn)."""
         varargs = fnode.args.vararg.arg if fnode.args.vararg else None
-        for n in ast.walk(fnode):
-            if not isinstance(n, ast.For):
-                continue
-            it = n.iter
-            if isinstance(it, ast.Name) and it.id == varargs and isinstance(n.target, ast.Name):
-                # tag-order candidate
-                for c in ast.walk(n):
-                    if isinstance(c, ast.Call) and dotted(c.func) == "self.find":
-                        res = None
-                        for a in ast.walk(n):
-                            if isinstance(a, ast.Assign) and a.value is c and isinstance(a.targets[0], ast.Name):
-                                res = a.targets[0].id
-                        return ("tag-order", res) if allow_inline else "tag-order"
+
+        def names_from_varargs(expr):
+            # the set tested against must derive from the varargs: directly, or a local assigned from a
+            # comprehension over it
+            if isinstance(expr, ast.Name):
+                for a in ast.walk(fnode):
+                    if isinstance(a, ast.Assign) and len(a.targets) == 1 and isinstance(a.targets[0], ast.Name) \
+                            and a.targets[0].id == expr.id:
+                        return any(isinstance(n, ast.Name) and n.id == varargs for n in ast.walk(a.value))
+                return expr.id == varargs
+            return any(isinstance(n, ast.Name) and n.id == varargs for n in ast.walk(expr))
+
+        def child_iter(it):
             src = dotted(it) or (dotted(it.func) if isinstance(it, ast.Call) else None)
-            if src in ("self", "self.iterchildren", "self.getchildren", "list") and isinstance(n.target, ast.Name):
-                tgt = n.target.id
-                for c in ast.walk(n):
-                    if isinstance(c, ast.Compare) and len(c.ops) == 1 and isinstance(c.ops[0], ast.In) \
-                            and dotted(c.left) == "%s.tag" % tgt:
-                        return ("doc-order", tgt) if allow_inline else "doc-order"
+            return src in ("self", "self.iterchildren", "self.getchildren")
+
+        for n in ast.walk(fnode):
+            if isinstance(n, ast.For):
+                it = n.iter
+                if isinstance(it, ast.Name) and it.id == varargs and isinstance(n.target, ast.Name):
+                    for c in ast.walk(n):
+                        if isinstance(c, ast.Call) and dotted(c.func) == "self.find":
+                            res = None
+                            for a in ast.walk(n):
+                                if isinstance(a, ast.Assign) and a.value is c and isinstance(a.targets[0], ast.Name):
+                                    res = a.targets[0].id
+                            return ("tag-order", res) if allow_inline else "tag-order"
+                if child_iter(it) and isinstance(n.target, ast.Name):
+                    tgt = n.target.id
+                    for c in ast.walk(n):
+                        if isinstance(c, ast.Compare) and len(c.ops) == 1 and isinstance(c.ops[0], ast.In) \
+                                and dotted(c.left) == "%s.tag" % tgt and names_from_varargs(c.comparators[0]):
+                            res = tgt
+                            for a in ast.walk(n):
+                                if isinstance(a, ast.Assign) and isinstance(a.value, ast.Name) and a.value.id == tgt \
+                                        and isinstance(a.targets[0], ast.Name):
+                                    res = a.targets[0].id
+                            return ("doc-order", res) if allow_inline else "doc-order"
+            if isinstance(n, ast.Assign) and isinstance(n.value, ast.Call) and dotted(n.value.func) == "next" \
+                    and n.value.args and isinstance(n.value.args[0], ast.GeneratorExp) and len(n.targets) == 1 \
+                    and isinstance(n.targets[0], ast.Name):
+                g = n.value.args[0]
+                if len(g.generators) == 1 and child_iter(g.generators[0].iter) and \
+                        isinstance(g.generators[0].target, ast.Name) and isinstance(g.elt, ast.Name) \
+                        and g.elt.id == g.generators[0].target.id and len(g.generators[0].ifs) == 1:
+                    tgt = g.generators[0].target.id
+                    c = g.generators[0].ifs[0]
+                    dflt_none = len(n.value.args) == 2 and isinstance(n.value.args[1], ast.Constant) \
+                        and n.value.args[1].value is None
+                    if dflt_none and isinstance(c, ast.Compare) and len(c.ops) == 1 and isinstance(c.ops[0], ast.In) \
+                            and dotted(c.left) == "%s.tag" % tgt and names_from_varargs(c.comparators[0]):
+                        return ("doc-order", n.targets[0].id) if allow_inline else "doc-order"
         return None
 
 
